@@ -15,10 +15,11 @@ const SRV_REAL: &[&str] = &[
     "tokio (current_thread runtime, mpsc, oneshot, Notify, Semaphore, select!)",
     "garble_lang (type check, compile)",
     "polytune::mpc",
+    "in the runs counted as runs_through_real_http_server_nodes: polytune-http-server (axum router, api.rs handlers and shared state, policy_client.rs HTTP client incl. URL construction, JSON bodies and status handling) - one node per party, requests leave through a reqwest middleware that parks them with the explorer",
 ];
 const SRV_STUB: &[&str] = &[
-    "RPC client between parties (SimPolicyClient: every call parks until the explorer delivers / fails / duplicates it)",
-    "HTTP routing rules of api.rs (40-line router stub; axum, reqwest, retry middleware, JWT not run)",
+    "RPC client between parties in the other runs (SimPolicyClient: every call parks until the explorer delivers / fails / duplicates it) together with the routing rules of api.rs (40-line router stub)",
+    "sockets, the retry middleware and JWT signing of the HTTP server (server.rs: client(), service()) are never run",
     "output destination (recorded)",
     "compile thread (closure real, completion time an explorer event via the __verif spawner hook)",
     "entropy source, tokio select! seed",
@@ -70,6 +71,7 @@ pub fn base_spec(rng: &mut ChaCha8Rng, n: usize, policies: Vec<PolicySpec>, conc
         no_schedule: vec![],
         max_events: 20_000,
         gate_outputs: false,
+        http: false,
     }
 }
 
@@ -288,9 +290,14 @@ impl Check for C13 {
             let n = if k % 3 == 2 { 3 } else { 2 };
             let ps = gen_policy(&mut rng, n, 1, &[0, 1, 2, 3, 4]);
             let auto = k % 4 != 3;
-            let spec = base_spec(&mut rng, n, vec![ps], vec![1; n], auto);
+            let mut spec = base_spec(&mut rng, n, vec![ps], vec![1; n], auto);
+            // every third configuration runs through the real HTTP server nodes
+            spec.http = k % 7 < 2;
             cx.begin(&serde_json::to_value(&spec).unwrap());
             let run = server::run(&spec);
+            if spec.http {
+                out.count("runs_through_real_http_server_nodes", 1);
+            }
             out.evals += 1;
             out.sim_steps += run.events;
             out.count(&format!("n={n}"), 1);
@@ -434,7 +441,8 @@ fn c16_gen(seed: u64, k: u64) -> C16Case {
             (format!("ill-typed: party {p}"), vec![p])
         }
     };
-    let spec = base_spec(&mut rng, n, vec![ps], vec![1; n], true);
+    let mut spec = base_spec(&mut rng, n, vec![ps], vec![1; n], true);
+    spec.http = k % 4 == 3;
     C16Case { spec, what, must_err }
 }
 
@@ -472,6 +480,9 @@ impl Check for C16 {
             let c = c16_gen(seed, k0 * 12 + j);
             cx.begin(&serde_json::to_value(&c).unwrap());
             let run = server::run(&c.spec);
+            if c.spec.http {
+                out.count("runs_through_real_http_server_nodes", 1);
+            }
             out.evals += 1;
             out.sim_steps += run.events;
             out.count(&format!("kind:{}", c.what.split(':').next().unwrap_or("")), 1);
@@ -647,7 +658,8 @@ impl Check for C14 {
         ps.leader = (k as usize) % n;
         ps.dest = vec![true; n];
         // MPC messages explored individually in a third of the configurations (injection "during MPC")
-        let base = base_spec(&mut rng, n, vec![ps], vec![1; n], k % 3 != 1);
+        let mut base = base_spec(&mut rng, n, vec![ps], vec![1; n], k % 3 != 1);
+        base.http = k % 4 == 2;
         let base_run = server::run(&base);
         let bv = c13_oracle(&base, &base_run);
         if !bv.is_empty() {
@@ -680,6 +692,9 @@ impl Check for C14 {
             }
             cx.begin(&serde_json::to_value(&c).unwrap());
             let run = server::run(&c.spec);
+            if c.spec.http {
+                out.count("runs_through_real_http_server_nodes", 1);
+            }
             out.evals += 1;
             out.sim_steps += run.events;
             for (f, x) in &run.fired {
@@ -826,6 +841,8 @@ impl Check for C15 {
             ps.dest = vec![true; n];
         }
         let mut base = base_spec(&mut rng, n, vec![ps], vec![1; n], k % 4 != 1);
+        // a quarter of the configurations: real HTTP server nodes, cancel = graceful shutdown of that node
+        base.http = k % 8 == 6;
         // slow destination: output deliveries are explorer events in half of the configurations
         base.gate_outputs = k % 2 == 1;
         let base_run = server::run(&base);
@@ -839,7 +856,7 @@ impl Check for C15 {
         // a destination that reacts to its first notification by cancelling (Cancel enqueued while the
         // delivering task is still running)
         for p in 0..n {
-            if !base.policies[0].dest[p] || shard != (p as u64) % 4 {
+            if !base.policies[0].dest[p] || shard != (p as u64) % 4 || base.http {
                 continue;
             }
             let mut s = base.clone();
@@ -847,6 +864,9 @@ impl Check for C15 {
             s.injections = vec![Injection { after_events: 0, action: Action::CancelFromOutput { party: p, comp: 1 }, burst: false, burst_before: false }];
             cx.begin(&serde_json::to_value(&s).unwrap());
             let run = server::run(&s);
+            if s.http {
+                out.count("runs_through_real_http_server_nodes", 1);
+            }
             out.evals += 1;
             out.sim_steps += run.events;
             out.count("cancel_from_inside_the_output_delivery", 1);
@@ -900,6 +920,9 @@ impl Check for C15 {
                 }
                 cx.begin(&serde_json::to_value(&s).unwrap());
                 let run = server::run(&s);
+                if s.http {
+                    out.count("runs_through_real_http_server_nodes", 1);
+                }
                 out.evals += 1;
                 out.sim_steps += run.events;
                 let c = run.calls.iter().find(|c| c.what == "cancel");
@@ -1031,6 +1054,9 @@ fn c17_gen(seed: u64, k: u64) -> ServerSpec {
     let policies: Vec<PolicySpec> = (0..np).map(|c| gen_policy(&mut rng, n, c as u64 + 1, &[0, 0, 2, 3])).collect();
     let concurrency: Vec<usize> = (0..n).map(|_| rng.random_range(1..=3)).collect();
     let mut spec = base_spec(&mut rng, n, policies, concurrency, true);
+    // (not together with a cancel: the shutdown of a node cancels its computations in the iteration
+    // order of a std HashMap, which this simulator does not seed)
+    spec.http = k % 4 == 1 && k % 3 != 2;
     match k % 3 {
         1 => {
             // one failing RPC
@@ -1100,6 +1126,9 @@ impl Check for C17 {
             let spec = c17_gen(seed, k0 * 6 + j);
             cx.begin(&serde_json::to_value(&spec).unwrap());
             let run = server::run(&spec);
+            if spec.http {
+                out.count("runs_through_real_http_server_nodes", 1);
+            }
             out.evals += 1;
             out.sim_steps += run.events;
             for (f, x) in &run.fired {
